@@ -25,6 +25,9 @@ const (
 	fnReportViol    = "(*reporting.Reporter).ReportViolation"
 )
 
+// curP: the program under analysis (set once at start; used where a helper has no *Program at hand).
+var curP *Program
+
 type siteInfo struct {
 	S    *ReportSite
 	Name string // construct name for obligations
@@ -95,7 +98,9 @@ func (c *Ctx) buildSiteInfo(s *ReportSite) *siteInfo {
 func (si *siteInfo) take(role string, pred func(l Lit) bool) []Lit {
 	var out []Lit
 	for _, l := range si.All {
-		if pred(l) {
+		ok := false
+		l.In(curP, func() { ok = pred(l) })
+		if ok {
 			out = append(out, l)
 			if _, ok := si.used[l.String()]; !ok {
 				si.used[l.String()] = role
@@ -170,10 +175,12 @@ func (c *Ctx) finishSite(si *siteInfo, rule string) {
 		if _, ok := si.used[l.String()]; ok {
 			continue
 		}
-		if cl := c.benignClass(si, l); cl != "" {
+		cl := ""
+		l.In(c.P, func() { cl = c.benignClass(si, l) })
+		if cl != "" {
 			continue
 		}
-		if call, _ := c.P.litHelperCall(l); call != nil && !c.P.isAnchor(call.Call.StaticCallee()) {
+		if call, _ := c.P.litHelperCall(l); call != nil && !c.P.isAnchor(c.P.Callee(&call.Call)) {
 			continue // a predicate helper: what its result implies is in the expanded literals, classified one by one
 		}
 		unknown = append(unknown, l.String())
